@@ -701,6 +701,13 @@ def run(ctx):
     cov.update({
         "transitions": cov["transitions"] + gen, "judge_states": dist, "judge_transitions": gen, "judge_tlc_wall_s": round(tlcwall, 1),
         "traces_validated_against_impl": accepted, "lines_judged": stats.get("lines", 0), "lines_with_false_clause": len(fails),
+        "evaluations": len(cases),
+        "distinct_nontrivial": len({json.dumps([c["dir"], c["path"], c["pv"], c["fv"], c["codec"], c["from"], c["recs"], c["batches"]], sort_keys=True)
+                                    for c in cases if c["recs"] or any(b["recs"] for b in c["batches"]) or c["dir"] == "pool"}),
+        "rule": "cases are enumerated by lib/engines/records.py (small pools exhaustively: 9 key/value null/empty/literal combinations, "
+                "header lists, timestamp pool with sub-millisecond parts; every split of 1..3 records into batches per format) plus seeded "
+                "samples; a case is non-trivial when it carries at least one record (or is a pool run) and distinct by (path, versions, "
+                "codec, requested offset, records/batches)",
         "failing_classes": per_class, "selftest_lines": nself, "codecs": [CODEC_NAME[c] for c in codecs],
         "produce_cases": by(lambda l: l["dir"] == "produce"), "fetch_cases": by(lambda l: l["dir"] == "fetch"),
         "produce_by_path": {p: by(lambda l, p=p: l["dir"] == "produce" and path_label(l) == p) for p in sorted({path_label(l) for l in lines if l["dir"] == "produce"})},
